@@ -1,6 +1,7 @@
 package main
 
 import (
+	"context"
 	"errors"
 	"fmt"
 	"sort"
@@ -101,7 +102,7 @@ func v1Values(o *Op) map[string]*v1sdk.AttributeValue {
 	return m
 }
 
-func searchV1(c *v1.Client, o *Op, start Item) (Item, []Item, error) {
+func searchV1(c v1c, o *Op, start Item) (Item, []Item, error) {
 	var items []map[string]*v1sdk.AttributeValue
 	var lek map[string]*v1sdk.AttributeValue
 	var lim *int64
@@ -141,14 +142,30 @@ func searchV1(c *v1.Client, o *Op, start Item) (Item, []Item, error) {
 	return fromV1Item(lek), res, nil
 }
 
-func runV1(c *v1.Client, o *Op) (out Outcome) {
+func runV1(c0 *v1.Client, o *Op) (out Outcome) {
 	defer func() {
 		if r := recover(); r != nil {
 			out = crashOutcome(r)
 		}
 	}()
+	c := v1c{c0}
 	switch o.Op {
 	case "createTable":
+		if viaHelper(o) {
+			// the AddTable helper builds the same request: string keys, pay per request (and a throughput)
+			rng := ""
+			if o.Key.Range != nil {
+				rng = string(o.Key.Range[0])
+			}
+			if err := v1.AddTable(c0, string(o.Table), string(o.Key.Hash[0]), rng); err != nil {
+				return errOutcomeV1(err)
+			}
+			res, err := c.DescribeTable(&v1sdk.DescribeTableInput{TableName: strptr(o.Table)})
+			if err != nil {
+				return errOutcomeV1(err)
+			}
+			return descOutV1(res.Table)
+		}
 		ks, ad := v1KeySchema(*o.Key)
 		in := &v1sdk.CreateTableInput{TableName: strptr(o.Table), KeySchema: ks, ProvisionedThroughput: v1Throughput(o.TP)}
 		if o.PPR {
@@ -193,6 +210,20 @@ func runV1(c *v1.Client, o *Op) (out Outcome) {
 		}
 		return descOutV1(res.Table)
 	case "updateTable":
+		if ix := indexViaHelper(o); ix != nil {
+			rng := ""
+			if ix.Key.Range != nil {
+				rng = string(ix.Key.Range[0])
+			}
+			if err := v1.AddIndex(c0, string(o.Table), string(ix.Name), string(ix.Key.Hash[0]), rng); err != nil {
+				return errOutcomeV1(err)
+			}
+			res, err := c.DescribeTable(&v1sdk.DescribeTableInput{TableName: strptr(o.Table)})
+			if err != nil {
+				return errOutcomeV1(err)
+			}
+			return descOutV1(res.Table)
+		}
 		in := &v1sdk.UpdateTableInput{TableName: strptr(o.Table)}
 		for _, ch := range o.Changes {
 			if ch.Create != nil {
@@ -212,7 +243,7 @@ func runV1(c *v1.Client, o *Op) (out Outcome) {
 		}
 		return descOutV1(res.TableDescription)
 	case "clearTable":
-		if err := v1.ClearTable(c, string(o.Table)); err != nil {
+		if err := v1.ClearTable(c0, string(o.Table)); err != nil {
 			return errOutcomeV1(err)
 		}
 		return okOut()
@@ -329,11 +360,11 @@ func runV1(c *v1.Client, o *Op) (out Outcome) {
 	case "setFailure":
 		switch {
 		case o.Legacy && o.F == "none":
-			v1.DeactiveForceFailure(c)
+			v1.DeactiveForceFailure(c0)
 		case o.Legacy && o.F == "deprecated":
-			v1.ActiveForceFailure(c)
+			v1.ActiveForceFailure(c0)
 		default:
-			v1.EmulateFailure(c, v1.FailureCondition(o.F))
+			v1.EmulateFailure(c0, v1.FailureCondition(o.F))
 		}
 		return okOut()
 	case "activateNative":
@@ -353,7 +384,7 @@ func runV1(c *v1.Client, o *Op) (out Outcome) {
 }
 
 // safeSearchV1 turns an error or a panic of one page read into an outcome
-func safeSearchV1(c *v1.Client, o *Op, start Item) (lek Item, items []Item, eo Outcome) {
+func safeSearchV1(c v1c, o *Op, start Item) (lek Item, items []Item, eo Outcome) {
 	defer func() {
 		if r := recover(); r != nil {
 			eo = crashOutcome(r)
@@ -364,4 +395,95 @@ func safeSearchV1(c *v1.Client, o *Op, start Item) (lek Item, items []Item, eo O
 		return nil, nil, errOutcomeV1(err)
 	}
 	return lek, items, nil
+}
+
+// v1c calls every operation alternately through its plain method and through its WithContext variant: the two are one operation
+type v1c struct{ *v1.Client }
+
+var v1UseCtx bool
+
+func v1ctx() bool { v1UseCtx = !v1UseCtx; return v1UseCtx }
+
+func (w v1c) Scan(in *v1sdk.ScanInput) (*v1sdk.ScanOutput, error) {
+	if v1ctx() {
+		return w.Client.ScanWithContext(context.Background(), in)
+	}
+	return w.Client.Scan(in)
+}
+
+func (w v1c) Query(in *v1sdk.QueryInput) (*v1sdk.QueryOutput, error) {
+	if v1ctx() {
+		return w.Client.QueryWithContext(context.Background(), in)
+	}
+	return w.Client.Query(in)
+}
+
+func (w v1c) CreateTable(in *v1sdk.CreateTableInput) (*v1sdk.CreateTableOutput, error) {
+	if v1ctx() {
+		return w.Client.CreateTableWithContext(context.Background(), in)
+	}
+	return w.Client.CreateTable(in)
+}
+
+func (w v1c) DeleteTable(in *v1sdk.DeleteTableInput) (*v1sdk.DeleteTableOutput, error) {
+	if v1ctx() {
+		return w.Client.DeleteTableWithContext(context.Background(), in)
+	}
+	return w.Client.DeleteTable(in)
+}
+
+func (w v1c) DescribeTable(in *v1sdk.DescribeTableInput) (*v1sdk.DescribeTableOutput, error) {
+	if v1ctx() {
+		return w.Client.DescribeTableWithContext(context.Background(), in)
+	}
+	return w.Client.DescribeTable(in)
+}
+
+func (w v1c) UpdateTable(in *v1sdk.UpdateTableInput) (*v1sdk.UpdateTableOutput, error) {
+	if v1ctx() {
+		return w.Client.UpdateTableWithContext(context.Background(), in)
+	}
+	return w.Client.UpdateTable(in)
+}
+
+func (w v1c) PutItem(in *v1sdk.PutItemInput) (*v1sdk.PutItemOutput, error) {
+	if v1ctx() {
+		return w.Client.PutItemWithContext(context.Background(), in)
+	}
+	return w.Client.PutItem(in)
+}
+
+func (w v1c) UpdateItem(in *v1sdk.UpdateItemInput) (*v1sdk.UpdateItemOutput, error) {
+	if v1ctx() {
+		return w.Client.UpdateItemWithContext(context.Background(), in)
+	}
+	return w.Client.UpdateItem(in)
+}
+
+func (w v1c) DeleteItem(in *v1sdk.DeleteItemInput) (*v1sdk.DeleteItemOutput, error) {
+	if v1ctx() {
+		return w.Client.DeleteItemWithContext(context.Background(), in)
+	}
+	return w.Client.DeleteItem(in)
+}
+
+func (w v1c) GetItem(in *v1sdk.GetItemInput) (*v1sdk.GetItemOutput, error) {
+	if v1ctx() {
+		return w.Client.GetItemWithContext(context.Background(), in)
+	}
+	return w.Client.GetItem(in)
+}
+
+func (w v1c) BatchWriteItem(in *v1sdk.BatchWriteItemInput) (*v1sdk.BatchWriteItemOutput, error) {
+	if v1ctx() {
+		return w.Client.BatchWriteItemWithContext(context.Background(), in)
+	}
+	return w.Client.BatchWriteItem(in)
+}
+
+func (w v1c) TransactWriteItems(in *v1sdk.TransactWriteItemsInput) (*v1sdk.TransactWriteItemsOutput, error) {
+	if v1ctx() {
+		return w.Client.TransactWriteItemsWithContext(context.Background(), in)
+	}
+	return w.Client.TransactWriteItems(in)
 }
